@@ -1,9 +1,13 @@
 """C21 Integrators keep constrained states on the manifold (partial: quaternion normalisation and prescribed motion)."""
+import sys
 from fractions import Fraction
 
 from engine.driver import poly as P
 from engine.driver.core import Ob, eq, eqs
 from engine.driver.encode import Constraint, EncodeError
+
+if hasattr(sys, "set_int_max_str_digits"):
+    sys.set_int_max_str_digits(0)      # exact rational base points of multi-stage steps have numerators of several thousand digits
 
 ID = "C21"
 HARNESS = "C21_manifold.cpp"
@@ -17,7 +21,8 @@ EXPLANATION = ("Real integrators (ExplicitEuler, RungeKuttaMerson; more in the t
                "(Sinusoid/Position) equal the prescribed functions of the returned state's own time, also for interpolated states, and the Steady "
                "mobilizer's q advances by rate * elapsed time.")
 BOUNDS = ("1 quaternion per model (Ball, Free); 1-2 internal steps; free: step size, report offsets, tolerance, initial angular velocity (ExplicitEuler: "
-          "two angular and one linear component; RungeKuttaMerson: step size and one component), prescribed amplitude/phase/rate; initial unit quaternion at 2 (quick) / 4 "
+          "step size, all angular and one linear component; RungeKuttaMerson and the other multi-stage methods: report offsets and tolerance free, step "
+          "size and velocities at exact base points), prescribed amplitude/phase/rate; initial unit quaternion at 2 (quick) / 4 "
           "(thorough) exact rational base points; path budget 3 quick / 12 thorough for the tolerance variant")
 NOT_COVERED = ("position and velocity CONSTRAINT satisfaction (projection onto the constraint manifold runs through LAPACK QTZ factorisation: symbolic values "
                "cannot pass through the external binary, 'shadow != native'); event before-states; CPodes; more than one quaternion (the RMS norm over several "
@@ -40,7 +45,7 @@ def instances(tier, seed):
                         continue
                     out.append(dict(name="quat/%s/%s/%s%s" % (mob, ig, opt, "/interp" if rep else ""), args=["quat", mob, ig, opt, str(ns)] + ([rep] if rep else []),
                                     base_points=(2 if not th else 4) if opt == "force" else 1, paths=1 if opt == "force" else (3 if not th else 12), flips_per_path=3,
-                                    max_terms=30000, abstract_big=False, pc_max_terms=(40 if opt == "force" else 400), z3_timeout_ms=20000))
+                                    max_terms=(3000 if opt == "force" else 40000), abstract_big=True, pc_max_terms=(40 if opt == "force" else 6000), z3_timeout_ms=20000))
         for mo in ("steady", "sinP", "sinV"):
             for rep in ("step", "interp"):
                 out.append(dict(name="presc/%s/%s/%s" % (mo, ig, rep), args=["presc", mo, ig, rep], base_points=1 if not th else 3, paths=1, max_terms=4000,
@@ -54,9 +59,11 @@ def free_sets(inst, tr, tier, rng):
     if a[0] == "quat":
         fr = ["h", "r0", "r1", "tol"]
         if a[2] == "ExplicitEuler":
-            fr += ["u0", "u1"] + (["u3"] if a[3] == "force" else [])
+            fr += ["u0", "u1"] + (["u2", "u3"] if a[3] == "force" else [])
         else:
-            fr += ["u1"]
+            # multi-stage methods evaluate the rotation of non-unit stage quaternions (one inverse variable per stage): with h or u free the
+            # advanced quaternion exceeds the polynomial size budget. Free: report offsets and tolerance; h and u at exact base points.
+            fr = ["r0", "r1", "tol"]
         return [[n for n in fr if n in names]]
     fr = ["h", "r0", "r1", "amp", "phase"] + (["rate", "qp0"] if a[1] == "steady" else [])
     return [[n for n in fr if n in names]]
@@ -69,10 +76,11 @@ def _inp(enc, n):
 def input_domain(enc, inst):
     cs = []
     names = enc.t.input_by_name
-    if "h" in names and enc.is_free("h"):
+    if "h" in names:
         h = _inp(enc, "h")
-        cs.append(Constraint(2, P.sub(h, P.const(Fraction(1, 1024))), "h>1/1024"))
-        cs.append(Constraint(4, P.sub(h, P.const(1)), "h<1"))
+        if enc.is_free("h"):
+            cs.append(Constraint(2, P.sub(h, P.const(Fraction(1, 1024))), "h>1/1024"))
+            cs.append(Constraint(4, P.sub(h, P.const(1)), "h<1"))
         for r in ("r0", "r1"):
             if r in names and enc.is_free(r):
                 cs.append(Constraint(2, P.sub(_inp(enc, r), P.const(Fraction(1, 4096))), r + ">0"))
@@ -107,15 +115,21 @@ def ob_quat(enc, inst, tr):
         n2_seed = R.evalf(n2, enc.vals)
         normalised = abs(n2_seed - 1.0) < 1e-13
         if opt == "force" or normalised:
-            obs.append(eq(enc, "%s: quaternion has exactly unit norm%s" % (what, "" if opt == "force" else " (normalised on this path)"), n2, P.const(1)))
+            # (the refutable twin |q|^2 = 2 is only asked where the coefficients are short: with pinned multi-stage data the satisfiable query
+            #  over algebraic numbers with thousands of digits takes minutes)
+            obs.append(eq(enc, "%s: quaternion has exactly unit norm%s" % (what, "" if opt == "force" else " (normalised on this path)"), n2, P.const(1),
+                          twin=(a[2] == "ExplicitEuler")))
         else:
             qe = o("qerr%d" % c)
             q1 = P.add(qe, P.const(1))
             obs.append(Ob("%s: reported quaternion error is |q| - 1" % what, [Constraint(1, P.sub(R.mul(q1, q1), n2), "(qerr+1)^2=|q|^2")]))
             obs.append(Ob("%s: 1 + qerr >= 0" % what, [Constraint(3, q1, "qerr+1>=0")]))
-            obs.append(Ob("%s: quaternion error within the constraint tolerance in use (not normalised on this path)" % what,
-                          [Constraint(5, P.sub(R.mul(qe, qe), R.mul(tol, tol)), "qerr^2<=tol^2")],
-                          twin=[Constraint(5, P.sub(R.mul(qe, qe), P.scale(R.mul(tol, tol), Fraction(1, 10 ** 6))), "[twin: within tol/1000]")]))
+            # |qerr| as the code forms it (RMS norm of the single quaternion error = sqrt(qerr^2)): the same algebraic number as in the path literal
+            absq = enc.root(R.mul(qe, qe), 2, abs(R.evalf(qe, enc.vals)))
+            obs.append(Ob("%s: quaternion error |qerr| = sqrt(qerr^2) within the constraint tolerance in use (not normalised on this path)" % what,
+                          [Constraint(5, P.sub(absq, tol), "|qerr|<=tol")],
+                          twin=([Constraint(5, P.sub(absq, P.scale(tol, Fraction(1, 1000))), "[twin: within tol/1000]")]
+                                if any(R.kind[v] == "free" and R.names[v] != "x_tol" for v in R.vars_of(n2)) else None)))
     return obs
 
 
